@@ -80,7 +80,7 @@ def run_pass(ctx, runs):
         c = {"coq": (defs, expr), "run": run, "b": b, "a": a, "n": 1, "k0": k0, "untouched": b["guard"] == a["guard"]}
         seen[key] = c
         cases.append(c)
-    probe = lib.run_tasks([{"kind": "capture_probe", "which": "cr", "timeout": 60}], timeout=60, jobs=1)[0]
+    probe = U.capture_probe(ctx, lib, "cr")
     pcase = _probe_case(probe)
     U.run_cases(ctx, lib, "pcr", cases + ([pcase] if pcase else []))
     mism = []
